@@ -753,7 +753,7 @@ class ndarray:
             items = self._items()
             return f(items) if items else init(cls)
         axes = (axis,) if not isinstance(axis, (tuple, list)) else tuple(axis)
-        axes = tuple(_norm_axis(_as_index(a), self.ndim) for a in axes)
+        axes = tuple(_norm_axis(_axis_arg(a), self.ndim) for a in axes)
         keep = [i for i in range(self.ndim) if i not in axes]
         out_shape = tuple(self.shape[i] for i in keep)
         groups = {}
@@ -811,7 +811,7 @@ class ndarray:
                 acc = cast_scalar(acc + x, cls)
                 out.append(acc)
             return ndarray._from_list(out, (self.size,), globals()["dtype"](cls))
-        axis = _norm_axis(_as_index(axis), self.ndim)
+        axis = _norm_axis(_axis_arg(axis), self.ndim)
         res = self.astype(cls)
         for idx in itertools.product(*[range(d) if i != axis else [0] for i, d in enumerate(self.shape)]):
             acc = _zero(cls)
@@ -916,6 +916,14 @@ def _fold_minmax(items, is_min):
                 v = _mk(type(rs), S.NAN)
         r = v
     return r
+
+
+def _axis_arg(a):
+    """An `axis=` argument: numpy raises TypeError (not IndexError) for anything that is not an integer."""
+    try:
+        return _as_index(a)
+    except IndexError:
+        raise TypeError(f"'{type(a).__name__}' object cannot be interpreted as an integer")
 
 
 def _norm_axis(a, ndim):
